@@ -425,6 +425,21 @@ Section CacheLaws.
       exact (proj2 (run_transparent_from ops d [] d' c' obs (good_empty d) Hdom H)).
     Qed.
 
+    (** the statement in the words of the property: in every state reachable from the empty cache, a
+        hit for [q] returns exactly what executing [q] on the current database returns *)
+    Theorem reachable_hit_current : forall ops d d' c' obs q v st'' r,
+      Forall op_dom (map fst ops) ->
+      run (d, []) ops = Some ((d', c'), obs) ->
+      dom q -> step (d', c') (Read q) v = Some (st'', Hit r) ->
+      exec d' q = Some r.
+    Proof.
+      intros ops d d' c' obs q v st'' r Hdom Hrun Hq Hstep.
+      destruct (run_transparent_from ops d [] d' c' obs (good_empty d) Hdom Hrun) as [Hg _].
+      destruct st'' as [d2 c2].
+      destruct (step_sound d' c' (Read q) v d2 c2 (Hit r) Hg Hq Hstep) as [_ [_ Hret]].
+      cbn in Hret. symmetry. exact Hret.
+    Qed.
+
     (** reachable states respect the capacity *)
     Theorem run_size_bound : forall ops d c d' c' obs,
       size c <= Z.max cap 1 -> run (d, c) ops = Some ((d', c'), obs) -> size c' <= Z.max cap 1.
